@@ -11,6 +11,21 @@ package consensus
 // file right after the call.  The joined journal is written as the same Coq case as the privval
 // harness (ISign per call, IRestart per incarnation), so the monitors of the property AND the
 // model of the signer are evaluated on what the real consensus code asked and got.
+//
+// Soundness of the observation (what "the state file right after the call" means).  The request,
+// the call of the real FilePV, the answer and the snapshot of the state file are taken in ONE
+// critical section of the journal's mutex (record), which every signer call of every incarnation
+// goes through: the file content journaled with a call is the content at the moment the call
+// returned, before consensus gets the signature.  Everything else that reads or changes the files
+// (the IRestart snapshot, tearing the WAL, deleting the directory, handing the journal to
+// cs.Add) happens only after the incarnation's signer has been DETACHED under the same mutex
+// (c04PV.detach): a call is either complete in the journal, or it is refused without reaching the
+// FilePV ("the process is dead").  Before detaching, the harness waits until the node is really
+// down: cs.Start has returned (catch-up replay can make the block, and so end the run, while
+// Start is still running and before it launches the receive routine) AND the receive routine has
+// exited.  An earlier version skipped that wait when the block event overtook Start's return
+// and deleted the directory under a node that was signing the next height's proposal: the
+// snapshot then said "no such file" (a false clause 3) or Save panicked (a false mismatch 11).
 
 import (
 	"context"
@@ -68,6 +83,7 @@ type c04Journal struct {
 	refused   int
 	reasked   int
 	unclean   bool // some incarnation did not shut down: its directory is left for the next run's sweep
+	late      int  // signer calls refused because their incarnation was over (only after an unclean stop)
 	seen      map[string]bool
 }
 
@@ -143,9 +159,13 @@ func (j *c04Journal) readDisk() (string, string) {
 		fmt.Sprintf("file{h=%d r=%d step=%d signbytes=%s sig#%d valid=%v}", st.Height, st.Round, st.Step, sbS, sg, ok)
 }
 
-func (j *c04Journal) record(prop bool, before []byte, do func() error, after func() ([]byte, []byte)) (err error) {
+func (j *c04Journal) record(p *c04PV, prop bool, before []byte, do func() error, after func() ([]byte, []byte)) (err error) {
 	j.mtx.Lock()
 	defer j.mtx.Unlock()
+	if p.detached {
+		j.late++
+		return errC04Detached
+	}
 	req := j.decode(prop, before)
 	rc := uint64(0)
 	func() {
@@ -172,6 +192,10 @@ func (j *c04Journal) record(prop bool, before []byte, do func() error, after fun
 		j.reasked++
 	}
 	j.seen[key] = true
+	if req.h >= 2 {
+		c04Inject(200 * time.Millisecond)
+	}
+	// still inside the critical section of the call: this is the file as it was when the call returned
 	dT, dS := j.readDisk()
 	j.terms = append(j.terms, "(ISign "+strings.Join([]string{req.term(), vg.N(rc), out.term(), vg.N(sig), vg.B(ok)}, " ")+" "+dT+")")
 	j.descr = append(j.descr, fmt.Sprintf("sign %v -> rc=%d out=%v sig#%d valid=%v; %s", req, rc, out, sig, ok, dS))
@@ -184,6 +208,13 @@ func (j *c04Journal) note(what string) {
 	j.descr = append(j.descr, what)
 }
 
+// final returns the journal once all incarnations are detached (nothing is appended any more).
+func (j *c04Journal) final() ([]string, []string) {
+	j.mtx.Lock()
+	defer j.mtx.Unlock()
+	return append([]string(nil), j.terms...), append([]string(nil), j.descr...)
+}
+
 func (j *c04Journal) restart(why string) {
 	j.mtx.Lock()
 	defer j.mtx.Unlock()
@@ -194,24 +225,37 @@ func (j *c04Journal) restart(why string) {
 
 // c04PV is the signer of one incarnation: a FilePV freshly loaded from the files.
 type c04PV struct {
-	pv *privval.FilePV
-	j  *c04Journal
+	pv       *privval.FilePV
+	j        *c04Journal
+	detached bool // guarded by j.mtx: the incarnation is over, its signer is gone
 }
 
 var _ types.PrivValidator = (*c04PV)(nil)
 
+var errC04Detached = fmt.Errorf("verif c04: the incarnation this signer belonged to is over")
+
 func (p *c04PV) GetPubKey() (crypto.PubKey, error) { return p.pv.GetPubKey() }
 
 func (p *c04PV) SignVote(chainID string, vote *tmproto.Vote) error {
-	return p.j.record(false, types.VoteSignBytes(chainID, vote),
+	return p.j.record(p, false, types.VoteSignBytes(chainID, vote),
 		func() error { return p.pv.SignVote(chainID, vote) },
 		func() ([]byte, []byte) { return types.VoteSignBytes(chainID, vote), vote.Signature })
 }
 
 func (p *c04PV) SignProposal(chainID string, proposal *tmproto.Proposal) error {
-	return p.j.record(true, types.ProposalSignBytes(chainID, proposal),
+	return p.j.record(p, true, types.ProposalSignBytes(chainID, proposal),
 		func() error { return p.pv.SignProposal(chainID, proposal) },
 		func() ([]byte, []byte) { return types.ProposalSignBytes(chainID, proposal), proposal.Signature })
+}
+
+// detach ends the incarnation for the signer: it waits for a call in flight (the journal's mutex
+// is held for the whole call including the snapshot of the file) and makes every later call fail
+// without touching the FilePV, the file or the journal.  Returns the number of journal entries.
+func (p *c04PV) detach() int {
+	p.j.mtx.Lock()
+	defer p.j.mtx.Unlock()
+	p.detached = true
+	return len(p.j.terms)
 }
 
 // c04Incarnation starts a node on what is on disk (WAL, sign state) and in the stores, with a WAL
@@ -248,63 +292,114 @@ func c04Incarnation(t *testing.T, conf *cfg.Config, blockDB dbm.DB, j *c04Journa
 	// Start replays the WAL in the calling goroutine and writes round-step records while doing so:
 	// the crashing WAL may kill it there (a crash during replay), so it gets its own goroutine.
 	startErr := make(chan error, 1)
-	go func() { startErr <- cs.Start() }()
-	receiveRoutineDead, started := false, false
+	go func() { err := cs.Start(); c04Inject(300 * time.Millisecond); startErr <- err }()
+	// started: cs.Start returned nil (the receive routine runs); startFailed: it returned an error (no
+	// receive routine); signerDead: the crashing WAL killed the goroutine that was driving the signer
+	// (the receive routine, or Start inside catch-up replay, in which case no receive routine exists).
+	// None of the three: Start is still running.
+	started, startFailed, signerDead := false, false, false
 	wait := 20 * time.Second
 	if crashAt == 0 {
 		wait = 3 * time.Second
 	}
-	defer func() {
-		if os.Getenv("VERIF_DEBUG") != "" {
-			t.Logf("incarnation crashAt=%d started=%v dead=%v", crashAt, started, receiveRoutineDead)
-		}
-		cs.Stop() //nolint:errcheck
-		if receiveRoutineDead {
-			// the killed receive routine cannot stop the WAL any more; its buffered tail reaches the file
-			csWal.Stop() //nolint:errcheck
-			csWal.Wait()
-		} else if started {
-			stopped := make(chan struct{})
-			go func() { cs.Wait(); close(stopped) }()
-			select {
-			case <-stopped:
-			case <-time.After(10 * time.Second):
-				j.unclean = true
-			}
-		}
-	}()
-	for {
+	res := ""
+	for res == "" {
 		select {
 		case err := <-startErr:
 			if err != nil {
 				// the node cannot start on what survived (e.g. an unrepairable WAL): liveness, not C04
 				j.note("node failed to start: " + strings.SplitN(err.Error(), "\n", 2)[0])
-				cs.wal.Stop() //nolint:errcheck // OnStart leaves the WAL it opened running when it fails
-				return "start-failed"
+				startFailed = true
+				res = "start-failed"
+			} else {
+				started = true
 			}
-			started = true
 		case e := <-walPanicked:
-			receiveRoutineDead = true
+			signerDead = true
 			if _, ok := e.(ReachedHeightToStopError); ok {
-				return "stopheight"
+				res = "stopheight"
+			} else {
+				res = "crashed"
 			}
-			return "crashed"
 		case ev := <-newBlockSub.Out():
 			if crashAt == 0 {
-				return "block"
-			}
-			if d, ok := ev.Data().(types.EventDataNewBlock); ok && d.Block != nil && d.Block.Height > heightToStop {
+				res = "block"
+			} else if d, ok := ev.Data().(types.EventDataNewBlock); ok && d.Block != nil && d.Block.Height > heightToStop {
 				// OnStart repaired a corrupted WAL and re-opened it, dropping the crashing wrapper
-				return "no-crash-wal-reopened"
+				res = "no-crash-wal-reopened"
 			}
 		case <-time.After(wait):
 			if crashAt == 0 {
 				// no block: the surviving WAL made the node ask for something the signer must refuse
 				// (e.g. its own proposal was lost); a liveness halt, not a safety matter
-				return "halted-signer-refuses"
+				res = "halted-signer-refuses"
+			} else {
+				res = "timeout"
 			}
-			return "timeout"
 		}
+	}
+
+	// ---- the incarnation is over: bring the node down, THEN let go of its files.
+	// The block that ends the run can be made by catch-up replay inside cs.Start, i.e. its event can
+	// arrive before Start has returned and before the receive routine exists: wait for Start first,
+	// otherwise there is nothing to wait for yet and the node goes on signing (next height) while
+	// the caller snapshots / tears / deletes the files.
+	if crashAt == 0 {
+		c04Inject(50 * time.Millisecond) // the test goroutine is descheduled before it stops the node
+	}
+	if !started && !startFailed && !signerDead {
+		select {
+		case err := <-startErr:
+			if err != nil {
+				j.note("node failed to start: " + strings.SplitN(err.Error(), "\n", 2)[0])
+				startFailed = true
+			} else {
+				started = true
+			}
+		case <-walPanicked:
+			signerDead = true
+		case <-time.After(c04StopWait):
+			j.unclean = true
+		}
+	}
+	cs.Stop() //nolint:errcheck
+	switch {
+	case startFailed:
+		cs.wal.Stop() //nolint:errcheck // OnStart leaves the WAL it opened running when it fails
+	case signerDead:
+		// the killed goroutine cannot stop the WAL any more; its buffered tail reaches the file
+		csWal.Stop() //nolint:errcheck
+		csWal.Wait()
+	case started:
+		stopped := make(chan struct{})
+		go func() { cs.Wait(); close(stopped) }() // closed by the receive routine when it returns
+		select {
+		case <-stopped:
+		case <-time.After(c04StopWait):
+			j.unclean = true
+		}
+	}
+	// from here on no call of this incarnation reaches the FilePV, the file or the journal
+	n := pv.detach()
+	if os.Getenv("VERIF_DEBUG") != "" {
+		t.Logf("incarnation crashAt=%d res=%s started=%v startFailed=%v signerDead=%v unclean=%v journal=%d",
+			crashAt, res, started, startFailed, signerDead, j.unclean, n)
+	}
+	return res
+}
+
+// how long a node gets to come down (Start to return, the receive routine to exit) before the run is
+// abandoned as unclean; generous because the machine may be heavily loaded
+const c04StopWait = 60 * time.Second
+
+// c04Inject: with VERIF_C04_INJECT set, the scheduling delays that a heavily loaded machine produced
+// by chance in the run that exposed the teardown race are injected deterministically (Start's
+// goroutine reports late, the test goroutine reacts late to the block, the signing goroutine is
+// descheduled between the call and the snapshot, the case is assembled late).  The verdicts must
+// not depend on it: `VERIF_C04_INJECT=1 bin/check C04` has to pass like the plain run.
+func c04Inject(d time.Duration) {
+	if os.Getenv("VERIF_C04_INJECT") != "" {
+		time.Sleep(d)
 	}
 }
 
@@ -375,21 +470,36 @@ func TestVerifC04WAL(t *testing.T) {
 						if r2 := c04Incarnation(t, conf, blockDB, j, k, heightToStop+1, withTxs); r2 == "crashed" {
 							crashes++
 							j.restart(fmt.Sprintf("node killed again at WAL write #%d after replay, restarted", k))
-						} else {
+						} else if !j.unclean {
 							j.restart("node stopped (" + r2 + "), restarted")
 						}
 					}
-					res = c04Incarnation(t, conf, blockDB, j, 0, 0, withTxs)
+					if j.unclean {
+						// the previous node could not be brought down in time: its signer is detached, but it
+						// may still write to the WAL and the stores; the journal ends here
+						res = "abandoned-node-did-not-stop"
+						j.note("run abandoned: the node did not stop")
+					} else {
+						res = c04Incarnation(t, conf, blockDB, j, 0, 0, withTxs)
+					}
 				}
+				// every incarnation is down (or detached from the signer and the journal): only now are the
+				// files let go of and the journal read
 				if !j.unclean {
 					os.RemoveAll(conf.RootDir)
 				}
+				c04Inject(400 * time.Millisecond)
+				terms, descr := j.final()
 				cs.Count("end/"+res, 1)
 				cs.Count("signer-calls/released", j.released)
 				cs.Count("signer-calls/refused", j.refused)
 				cs.Count("signer-calls/same-hrs-asked-again", j.reasked)
+				if j.unclean {
+					cs.Count("node-did-not-stop", 1)
+					cs.Count("signer-calls/late-refused-by-harness", j.late)
+				}
 				cs.Add(id, kind, crashes > 0 && j.reasked > 0,
-					vg.App("CRun", d0T, vg.L(j.terms)), strings.Join(j.descr, "\n  "))
+					vg.App("CRun", d0T, vg.L(terms)), strings.Join(descr, "\n  "))
 			}()
 		}
 	}
